@@ -27,8 +27,9 @@ def bits_term(w):
 def machine_rows(desc):
     doms, datas = [], []
     for d in desc["doms"]:
-        arch = "(mkArch %d %d %s %s %d %d %s %d %s)" % (d["Rsize"], d["R"], C.cq_N(d["N"]), C.cq_N(d["M"]), d["L"], d["O"],
-                                                       C.cq_list([C.cq_string(n) + "%string" for n in d["Ops"] or []]), d["WordSize"], MODES.get(d["Mode"], "Ha"))
+        arch = "(mkArch %d %d %s %s %d %d %s %d %s %s)" % (d["Rsize"], d["R"], C.cq_N(d["N"]), C.cq_N(d["M"]), d["L"], d["O"],
+                                                          C.cq_list([C.cq_string(n) + "%string" for n in d["Ops"] or []]), d["WordSize"], MODES.get(d["Mode"], "Ha"),
+                                                          C.cq_list([C.cq_string(x.split(":")[0]) + "%string" for x in (d.get("Shared") or "").split(",") if ":" in x]))
         doms.append("(%s, %s)" % (arch, C.cq_list([bits_term(w) for w in d["Rom"] or []])))
         datas.append(C.cq_list([str(len(w)) for w in (d.get("Data") or [])]))      # the width of every ROM data word
     return "(%d, %s, %s, %s)" % (desc["rsize"], C.cq_list(doms), simlib.topo_term(desc["topo"]), C.cq_list(datas))
